@@ -231,10 +231,27 @@ def one_case(ctx, rec, kind, pos, now, sid, names, header_len, hs_support, legs,
             r = s.protect(data, sid, rk=rec.id)
         blob = bytes.fromhex(r[5:])
     results, transcripts, dcs = {}, {}, {}
+    script = None
+    if public and kind != "unprotect" and rec.secret_algorithm == "DH":
+        # the ephemeral exponent is scripted so that the DH shared secret has a LEADING ZERO octet at the group's width (1 in 256 by
+        # chance): a peer — the DC, Windows — serialises it at the fixed width, and so must this side
+        import os as _os
+        hn_ = rec.hash_name.lower()
+        seed_ = refimpl.Chain(hn_, rec.key, rec.id, sd, now[0]).K2(now[1], now[2])
+        kl_, p_, g_ = refimpl.parse_ffc_params(rec.secret_parameters)
+        y_ = pow(g_, int.from_bytes(refimpl.group_private_key(hn_, seed_, "DH", rec.private_key_length), "big"), p_)
+        nb_ = -(-rec.private_key_length // 8)
+        for _ in range(20000):
+            x_ = int.from_bytes(_os.urandom(nb_), "big")
+            if pow(y_, x_, p_) >> (8 * (kl_ - 1)) == 0 and 1 < pow(g_, x_, p_) < p_ - 1:
+                script = lambda n, x_=x_, nb_=nb_: x_.to_bytes(n, "big") if n == nb_ else _os.urandom(n)
+                inp["scripted"] = "ephemeral exponent with a leading-zero shared secret"
+                ctx.count("protect:public:leading_zero_secret")
+                break
     for flavour in ("sync", "async"):
         dc = new_dc()
         dcs[flavour] = dc
-        with online_world(dc, legs, header_len, now_ns, rng, chunked) as (providers, lookups), toycrypto.recording() as rlog:
+        with online_world(dc, legs, header_len, now_ns, rng, chunked) as (providers, lookups), toycrypto.recording(script) as rlog:
             rlog.kdf_budget = 200          # a derivation that runs away is an error, not a hang
             try:
                 if kind == "unprotect":
@@ -283,6 +300,23 @@ def one_case(ctx, rec, kind, pos, now, sid, names, header_len, hs_support, legs,
                 ctx.violation("a blob protected online does not decrypt to the plaintext", dict(inp, flavour=flavour), back[:80], "done …")
             from dpapi_ng._blob import DPAPINGBlob
             kid = DPAPINGBlob.unpack(val).key_identifier
+            # … and an INDEPENDENT seed holder (own key chain, own DH / ECDH / KDFs) can unwrap it: the KEK is the construction's
+            try:
+                from cryptography.hazmat.primitives import keywrap as _kw
+                from cryptography.hazmat.primitives.ciphers.aead import AESGCM as _G
+                b_ = DPAPINGBlob.unpack(val)
+                hn_ = rec.hash_name.lower()
+                seed_ = refimpl.Chain(hn_, rec.key, rec.id, sd, kid.l0).K2(kid.l1, kid.l2)
+                if kid.flags & 1:
+                    kek_ = refimpl.kek_public(hn_, rec.secret_algorithm, refimpl.group_private_key(hn_, seed_, rec.secret_algorithm, rec.private_key_length), kid.key_info)
+                else:
+                    kek_ = refimpl.kek_nonce(hn_, seed_, kid.key_info)
+                pt_ = _G(_kw.aes_key_unwrap(kek_, b_.enc_cek)).decrypt(b_.enc_content_parameters[4:16], b_.enc_content, None)
+                ind = "done " + hx(pt_)
+            except Exception as e:  # noqa
+                ind = "err " + canon_exc(e)
+            if ind != "done " + hx(data):
+                ctx.violation("a blob protected online cannot be decrypted by an independent seed holder (the KEK is not the construction's)", dict(inp, flavour=flavour), ind[:80], "the plaintext")
             if (kid.l0, kid.l1, kid.l2) != tuple(now) or kid.domain_name != names[0] or kid.forest_name != names[1] or kid.root_key_identifier != rec.id:
                 ctx.violation("blob protected online does not name the DC's current key", dict(inp, flavour=flavour), (kid.l0, kid.l1, kid.l2, kid.domain_name), (now, names[0]))
 
@@ -382,6 +416,10 @@ def run(ctx):
                 one_case(ctx, rec, "unprotect", pos, now, sids[0], names[2], 16, True, 2 + (i + int(at_now)) % 4, False, cases, chunked=False, reply_at_now=at_now)
                 ctx.count("blob_vs_dc_clock_relation:" + ("reply positioned at the DC clock" if at_now else "reply positioned at the request"))
                 n += 1
+        # a caller who only gets the group PUBLIC key (DH): every run, for two hashes, with the scripted leading-zero shared secret
+        for rec in [r for r in roots if r.secret_algorithm == "DH"][:: 3 if not ctx.thorough else 1][:4]:
+            one_case(ctx, rec, rng.choice(["protect", "protect-rk"]), (361, 17, 13), rng.choice(positions), sids[0], names[2], 16, True, 2, True, cases, chunked=False)
+            n += 1
         for rec in fast[:2]:
             shared_cache_history(ctx, rec, rng)
         ctx.count("online_cases", n)
